@@ -153,4 +153,10 @@ BENIGN = [
     dict(id="g019", file=Q, old="        n_portions = len(ratios)\n        total = sum(ratios)", new="        total = sum(ratios)\n        n_portions = len(ratios)", props=["C06"]),
     dict(id="g020", file=Q, old="        if not isinstance(symbol, str):\n            raise TypeError(\"'symbol' must be a string.\")\n        if not symbol:\n            raise ValueError(\"'symbol' must not be an empty string.\")\n        if isinstance(define_as, Quantity):",
          new="        if not isinstance(symbol, str):\n            raise TypeError(\"'symbol' must be a string.\")\n        if symbol == '':\n            raise ValueError(\"'symbol' must not be an empty string.\")\n        if isinstance(define_as, Quantity):", props=["C15", "C16"]),
+    dict(id="g021", file=Q, old="        try:\n            _SYMBOL_UNIT_MAP[symbol]\n        except KeyError:\n            _SYMBOL_UNIT_MAP[symbol] = unit\n        else:\n            raise ValueError(\n                f\"Unit with symbol '{symbol}' already registered.\")",
+         new="        if symbol in _SYMBOL_UNIT_MAP:\n            raise ValueError(\n                f\"Unit with symbol '{symbol}' already registered.\")\n        _SYMBOL_UNIT_MAP[symbol] = unit", props=["C01", "C15", "C16", "C17", "C08"]),
+    dict(id="g022", file=Q, old="            try:  # try cache\n                return _op_cache[(operator.mul, self, other)]\n            except KeyError:\n                pass",
+         new="            cached = _op_cache.get((operator.mul, self, other))\n            if cached is not None:\n                return cached", props=["C02", "C05", "C17"]),
+    dict(id="g023", file=Q, old="        try:\n            return _SYMBOL_UNIT_MAP[symbol]\n        except KeyError:\n            raise ValueError(\n                f\"No unit with symbol '{symbol}' registered.\") from None",
+         new="        unit = _SYMBOL_UNIT_MAP.get(symbol)\n        if unit is None:\n            raise ValueError(\n                f\"No unit with symbol '{symbol}' registered.\")\n        return unit", props=["C15", "C18"]),
 ]
